@@ -244,13 +244,34 @@ _KEEP.append(_socket.inet_ntop)
 
 def concretize_seq(s, max_symbolic=1):
     """Concrete bytes/str for a symbolic sequence by forking over every
-    feasible value of (at most max_symbolic) symbolic elements."""
+    feasible value of its symbolic elements.  Elements the path condition
+    pins to a single value are free; at most max_symbolic elements with
+    several feasible values are accepted (each forks up to 256 ways)."""
     if not isinstance(s, _SSeq):
         return s
-    nsym = sum(1 for x in s._e if not isinstance(x, int))
-    if nsym > max_symbolic:
-        raise Unsupported('concretising %d symbolic elements' % nsym)
-    vals = [x if isinstance(x, int) else int(mkint(x)) for x in s._e]
+    ctx = core.current()
+    vals = []
+    nfree = 0
+    if sum(1 for x in s._e if not isinstance(x, int)) <= max_symbolic:
+        ctx = None          # few enough: no need to look for pinned elements
+    for x in s._e:
+        if isinstance(x, int):
+            vals.append(x)
+            continue
+        e = z3.simplify(x)
+        if not z3.is_term(e):
+            vals.append(e)
+            continue
+        if ctx is not None and ctx.active:
+            if not ctx._check():
+                raise core.EngineError('path condition unsatisfiable')
+            m = z3.from_model(ctx.solver.model(), e)
+            if ctx._check(e != m):
+                nfree += 1
+                if nfree > max_symbolic:
+                    raise Unsupported('concretising more than %d free '
+                                      'symbolic elements' % max_symbolic)
+        vals.append(int(mkint(x)))
     return bytes(vals) if s._is_bytes else ''.join(map(chr, vals))
 
 
